@@ -27,7 +27,7 @@ def report(rep, signature, what, replay):
         rep.violation(signature, what, replay)
 
 
-GENERATED = ["VteTable", "AnsiSgr"]
+GENERATED = ["VteTable", "AnsiSgr", "RawLine"]
 ESC = "\x1b"
 
 # ------------------------------------------------------------------ independent SGR interpreter
@@ -653,7 +653,11 @@ MODES = [[], ["--side-by-side", "--width", "100"], ["--line-numbers"], ["--color
          ["--word-diff-regex", "."], ["--max-line-distance", "1.0", "--minus-emph-style", "reverse red"]]
 RAW_MODES = [["--file-style", "raw", "--file-decoration-style", "none", "--hunk-header-style", "raw",
               "--hunk-header-decoration-style", "none", "--commit-style", "raw"],
-             ["--minus-style", "raw", "--plus-style", "raw"]]
+             ["--minus-style", "raw", "--plus-style", "raw"],
+             ["--minus-style", "raw", "--plus-style", "raw", "--inspect-raw-lines", "false"],
+             ["--minus-style", "raw", "--plus-style", "raw", "--zero-style", "raw", "--inspect-raw-lines", "true"],
+             ["--minus-style", "raw", "--plus-style", "raw", "--zero-style", "raw", "--inspect-raw-lines", "false",
+              "--side-by-side", "--width", "120"]]
 TRUNC_MODE = ["--max-line-length", "50"]
 
 
@@ -783,7 +787,11 @@ def binary_case_raw(ctx, rep, case):
                     break
 
 
-MOVED_MODES = [[], ["--side-by-side", "--width", "120"], ["--line-numbers"], ["--keep-plus-minus-markers"]]
+MOVED_MODES = [[], ["--side-by-side", "--width", "120"], ["--line-numbers"], ["--keep-plus-minus-markers"],
+               ["--inspect-raw-lines", "true"],
+               # a raw style keeps the input colours whatever --inspect-raw-lines says
+               ["--minus-style", "raw", "--plus-style", "raw", "--inspect-raw-lines", "false"],
+               ["--minus-style", "raw", "--plus-style", "raw", "--zero-style", "raw"]]
 MAP = "bold purple => red \"#330000\", bold cyan => blue \"#003300\""
 
 
@@ -828,6 +836,55 @@ def binary_case_moved(ctx, rep, case):
                       dict(kind="binary", sub="moved", want=want.enc(), got=repr(got), case=case))
 
 
+def binary_case_moved_off(ctx, rep, case):
+    """`--inspect-raw-lines=false` (and no raw style): moved-line colours are ignored like git's
+    default ones - the output is that of the uncoloured input."""
+    params, kind, mode = case["params"], case["kind"], case["mode"]
+    other = "+" if kind == "-" else "-"
+    def lines(col):
+        ml = (sgr(params) + kind + "moved text" + sgr("")) if col else kind + "moved text"
+        ol = (sgr("31" if other == "-" else "32") + other + "unrelated" + sgr("")) if col else other + "unrelated"
+        return ["diff --git a/m.txt b/m.txt", "index 1..2 100644", "--- a/m.txt", "+++ b/m.txt", "@@ -1,3 +1,3 @@", " ctx", ml, ol, " ctx2"]
+    args = ["--inspect-raw-lines", "false"] + mode
+    (rc1, o1, e1), (rc2, o2, e2) = run_pair(ctx, args, lines(False), lines(True))
+    rep.case(key=("moved-off", params, kind, tuple(mode)), nontrivial=True,
+             sample=dict(op="binary inspect-raw-lines=false", params=params, mode=args))
+    rep.count("binary:moved-off")
+    if rc1 != 0 or rc2 != 0:
+        report(rep, "binary:exit-status", f"delta exit status {rc1}/{rc2}", dict(kind="binary", sub="moved-off", case=case))
+    elif o1 != o2:
+        d = first_diff_row(o1, o2)
+        report(rep, "inspect-off:colours-not-ignored", "with --inspect-raw-lines=false a moved-line colour changes the output",
+               dict(kind="binary", sub="moved-off", plain_row=repr(d[1]), coloured_row=repr(d[2]), case=case))
+
+
+def binary_case_worddiff(ctx, rep, case):
+    """Calling process `git diff --word-diff` (pinned with DELTA_VERIF_FORCE_GUESS): every hunk line
+    keeps its input colouring, with --inspect-raw-lines true and false."""
+    lines = ["diff --git a/f.txt b/f.txt", "index 1..2 100644", "--- a/f.txt", "+++ b/f.txt", "@@ -1,2 +1,2 @@", " ctx",
+             " keep " + sgr(case["minus"]) + "[-oldword-]" + sgr("") + sgr(case["plus"]) + "{+newword+}" + sgr("") + " tail"]
+    rc, out, err = ctx.run_delta(["--no-gitconfig", "--inspect-raw-lines", case["inspect"]] + case["mode"], enc_lines(lines),
+                                 env={"DELTA_VERIF_FORCE_GUESS": "git diff --word-diff"})
+    rep.case(key=("worddiff", case["minus"], case["plus"], case["inspect"], tuple(case["mode"])), nontrivial=True,
+             sample=dict(op="binary word-diff caller", line=lines[-1], inspect=case["inspect"]))
+    rep.count("binary:worddiff")
+    if rc != 0:
+        report(rep, "binary:exit-status", f"delta exit status {rc}", dict(kind="binary", sub="worddiff", case=case))
+        return
+    wm, wp = apply_sgr(Rend(), parse_params(case["minus"])).key(), apply_sgr(Rend(), parse_params(case["plus"])).key()
+    got = {}
+    for l in out.split(b"\n"):
+        cells = decode_cells(l)
+        txt = "".join(c for c, _ in cells)
+        for word in ("[-oldword-]", "{+newword+}"):
+            j = txt.find(word)
+            if j >= 0:
+                got[word] = {r for _, r in cells[j:j + len(word)]}
+    if got.get("[-oldword-]") != {wm} or got.get("{+newword+}") != {wp}:
+        report(rep, "word-diff:colouring-lost", "under git diff --word-diff a hunk line did not keep its input colouring",
+               dict(kind="binary", sub="worddiff", got=repr(got), case=case))
+
+
 def moved_params(rng):
     items = [gen_supported_item(rng) for _ in range(rng.randint(1, 3))]
     return ";".join(items)
@@ -870,6 +927,13 @@ def binary_cases(ctx):
     for p in ["1;35", "1;36", "1;38;5;5", "35;1", "1;38;5;6", "1;34", "35", "1;35;4"]:
         for kind in "-+":
             cases.append(("moved", dict(params=p, kind=kind, form="per-line", mode=[], map=True)))
+    # the decision of maybe_raw_line under every option combination
+    for p in ["1;35", "1;36", "7", "38;5;208", "1;31", "32;4"] + [moved_params(rng) for _ in range(ctx.n(6, 200))]:
+        for kind in "-+":
+            cases.append(("moved-off", dict(params=p, kind=kind, mode=rng.choice([[], ["--side-by-side"], ["--line-numbers"]]))))
+    for inspect in ("true", "false"):
+        for minus, plus in [("31", "32"), ("1;31", "1;32"), ("38;5;9", "38;5;10")]:
+            cases.append(("worddiff", dict(minus=minus, plus=plus, inspect=inspect, mode=rng.choice([[], ["--line-numbers"]]))))
     return cases
 
 
@@ -878,6 +942,10 @@ def binary_one(ctx, rep, sub, case):
         binary_case_default(ctx, rep, case)
     elif sub == "raw":
         binary_case_raw(ctx, rep, case)
+    elif sub == "moved-off":
+        binary_case_moved_off(ctx, rep, case)
+    elif sub == "worddiff":
+        binary_case_worddiff(ctx, rep, case)
     else:
         binary_case_moved(ctx, rep, case)
 
